@@ -19,21 +19,7 @@
 #include <upipe/urequest.h>
 #include <stdlib.h>
 
-/* "arbitrary" answers of the stubs: each one is assigned to gs_vsc so that a counterexample trace carries
- * it (assignments to gs_vsc, in call order); the native replay reads them back in the same order
- * (snapshot keys vsc#<k>) — the replayed execution makes the same choices in the same order */
-static unsigned long long gs_vsc;
-#ifdef VNATIVE
-static inline unsigned long long vs_choice(void)
-{
-    static int k; char key[64]; snprintf(key, sizeof(key), "vsc#%d", k++);
-    unsigned long long v = 0; vn_read_quiet(key, &v, sizeof(v)); return v;
-}
-#define VS_CHOICE(name) (gs_vsc = vs_choice())
-#else
-unsigned long long nondet_vs_choice(void);
-#define VS_CHOICE(name) (gs_vsc = nondet_vs_choice())
-#endif
+#include "vstub_choice.h"
 
 /* ------------------------------------------------------------------ probe */
 static int gs_ev_count;          /* events of any kind, log included */
